@@ -20,7 +20,7 @@ ASSUMPTIONS = ["an instance is counted by its own start log (one u.start per con
                "vp/model.py for behaviour", "g++-12 -O1 build of the working tree with harness-side shims"]
 FLOORS = {"order_pairs_compared": {"quick": 400, "thorough": 6000}, "shared_duplicates": {"quick": 150, "thorough": 2500},
           "distinct_near_duplicates": {"quick": 150, "thorough": 2500}, "duplicated_sinks": {"quick": 100, "thorough": 1500},
-          "delayed_reroutes": {"quick": 100, "thorough": 1500}, "packed_parameter_near_duplicates": {"quick": 100, "thorough": 1500},
+          "delayed_reroutes": {"quick": 100, "thorough": 1500}, "chained_delayed_reroutes": {"quick": 25, "thorough": 400}, "packed_parameter_near_duplicates": {"quick": 100, "thorough": 1500},
           "shared_nodes_with_two_error_captures": {"quick": 60, "thorough": 1000}, "captured_error_values_compared": {"quick": 60, "thorough": 1000}}
 BATCH = 24
 
@@ -204,7 +204,16 @@ def shuffle_order(rng, case, reroute=True):
                 if st.op in ("pass", "add2", "acc", "count") and st.args and rng.random() < 0.1 and not st.args[0].startswith("~"):
                     d = f"dl{len(new)}"
                     new.append(S(d, "delayed"))
-                    tail.append(S("", "bindd", d, st.args[0]))
+                    if rng.random() < 0.4:
+                        # a forwarded forward declaration: the placeholder is bound to a SECOND placeholder, which is bound to the
+                        # port (either binding may be wired first)
+                        d2 = f"dm{len(new)}"
+                        new.append(S(d2, "delayed"))
+                        tail.append(S("", "bindd", d, d2))
+                        tail.append(S("", "bindd", d2, st.args[0]))
+                        c.meta["chained_reroutes"] = c.meta.get("chained_reroutes", 0) + 1
+                    else:
+                        tail.append(S("", "bindd", d, st.args[0]))
                     st = Stmt(st.dst, st.op, [d] + st.args[1:], dict(st.kw))
                     rer += 1
                 new.append(st)
@@ -382,7 +391,7 @@ def check(case, tr):
             res.violations.append(Violation(f"wiring orders {case.meta['order']} and {other_order} of the same dataflow differ on uids {sorted(bad)[:6]}"))
     grp.append((case.meta["order"], nodes, streams, known_dev, starts, res.signature))
     res.counters = {"order_pairs_compared": pairs, "shared_duplicates": shared, "distinct_near_duplicates": distinct,
-                    "duplicated_sinks": sinks, "delayed_reroutes": case.meta.get("reroutes", 0), "runs_compared": len(mr.runs),
+                    "duplicated_sinks": sinks, "delayed_reroutes": case.meta.get("reroutes", 0), "chained_delayed_reroutes": case.meta.get("chained_reroutes", 0), "runs_compared": len(mr.runs),
                     "packed_parameter_near_duplicates": case.meta.get("packed", 0),
                     "shared_nodes_with_two_error_captures": case.meta.get("errtwice_n", 0), "captured_error_values_compared": err_events,
                     "node_pairs_with_different_capture_options": case.meta.get("errpair_n", 0), "own_capture_detail_checks": own_detail}
